@@ -140,9 +140,9 @@ CLAIMS.update({
         "design": "DESIGN.md section 3 C15",
     },
     "C16": {
-        "text": "Table and base-set clauses (thin): the literal smallprimes table is ascending, equals the set of primes up to its maximum (sieved by the checker) and is never written; is_prime answers n <= max(table) by membership before a prefilter that rejects only on a non-trivial gcd with table primes; for every bit length <= 65 at least 12 Miller-Rabin rounds are chosen (bases smallprimes[i], deterministic below 3.3e24 by the published bound) and False is returned only on a witness; next_prime walks odd candidates upward from (n+1)|1 until is_prime, 2 below 2; gcd/lcm reduce both calling conventions with the same binary function. Does not decide the modular arithmetic of Miller-Rabin, factorization or gcd values. factorization: the odd-divisor search advances by 2 and its single exit condition normalises (integer comparison normal form over n, d, n//d, d*d) to d*d > n; small-prime phase and n < 2 shape. R16.3 is decided on abstract scenarios: the Miller-Rabin tail of is_prime is interpreted (sa/small.py) for bit lengths 12-65, n-1 = 2^S*odd, power sequences classified ONE/-1/OTHER and a witness at base index 0, 5, 11 or none: False exactly when one of the first 12 bases smallprimes[i] is a witness. R16.5: gcd/lcm calling conventions on abstract tokens.",
+        "text": "Table and base-set clauses (thin): the literal smallprimes table is ascending, equals the set of primes up to its maximum (sieved by the checker) and is never written; is_prime answers n <= max(table) by membership before a prefilter that rejects only on a non-trivial gcd with table primes; for every bit length <= 65 at least 12 Miller-Rabin rounds are chosen (bases smallprimes[i], deterministic below 3.3e24 by the published bound) and False is returned only on a witness; next_prime walks odd candidates upward from (n+1)|1 until is_prime, 2 below 2; gcd/lcm reduce both calling conventions with the same binary function. Does not decide the modular arithmetic of Miller-Rabin, factorization or gcd values. factorization: the odd-divisor search advances by 2 and its single exit condition normalises (integer comparison normal form over n, d, n//d, d*d) to d*d > n; small-prime phase and n < 2 shape. R16.3 is decided on abstract scenarios: the Miller-Rabin tail of is_prime is interpreted (sa/small.py) for bit lengths 12-65, n-1 = 2^S*odd, power sequences classified ONE/-1/OTHER and a witness at base index 0, 5, 11 or none: False exactly when one of the first 12 bases smallprimes[i] is a witness. R16.5: gcd/lcm calling conventions on abstract tokens. R16.7: on every acyclic path gcd / lcm iterate over the caller-supplied iterable at most once (use-count over membership tests, reduce and friends, loops, comprehensions), so a one-shot iterator argument gives the result a list gives.",
         "note": "A1; shape rules over one function each: an equivalent restructuring is reported and must be re-confirmed by reading.",
-        "technique": "constant folding + table comparison; abstract interpretation of the Miller-Rabin tail and of the gcd/lcm conventions on finite abstract scenarios (own interpreter of the syntax tree); comparison normal forms and syntax patterns for the remaining shape rules",
+        "technique": "constant folding + table comparison; abstract interpretation of the Miller-Rabin tail and of the gcd/lcm conventions on finite abstract scenarios (own interpreter of the syntax tree); comparison normal forms and syntax patterns for the remaining shape rules; path-wise use-count (consumption) analysis of the iterable argument",
         "design": "DESIGN.md section 3 C16",
     },
 })
